@@ -176,7 +176,7 @@ def whyPoint (ty form input : String) : String :=
         let P := if ty = "PointG1" then g1PtOfRaw cs else g2PtOfRaw cs
         let B := if ty = "PointG1" then B1 else B2
         if P.z.isZero then
-          (if P.x.isZero && !P.y.isZero then "identity_not_allowed" else "degenerate_projective_triple")
+          (if P.x.isZero then "identity_not_allowed" else "degenerate_projective_triple")
         else if !(onCurveProj B P) then "not_on_curve" else "not_in_subgroup"
 
 def decodeOp (inp : Json) : Except String Json := do
@@ -220,6 +220,12 @@ def objKeys (j : Json) : Option (List String) :=
 def sortStrs (l : List String) : List String := (l.toArray.qsort (· < ·)).toList
 
 open CL.Curve in
+/-- components of a point as WRITTEN (the serialiser prints the in-memory representation; the
+decoder may normalise it) -/
+def writtenRaw (n : Nat) (s : String) : TextPt :=
+  ⟨((parseComponents n (splitWs s.toList)).getD []).map truncBig⟩
+
+open CL.Curve in
 /-- a primitive leaf: the text form must be accepted by the decoder as modelled AND by the
 specification, and the binary form (when present) must be the bytes of the same value -/
 def checkLeaf (a : Acc) (path : String) (k : Wire.Kind) (jt : Json) (jb : Option Json) : Acc :=
@@ -254,17 +260,17 @@ def checkLeaf (a : Acc) (path : String) (k : Wire.Kind) (jt : Json) (jb : Option
     | _ => a.bad path s!"scalar text refused: {s}"
   | .g1, .str s =>
     match implG1Text false s.toList, specG1Text s.toList with
-    | .ok t, .ok _ => cmpBytes a (g1TextBytes t)
+    | .ok _, .ok _ => cmpBytes a (g1TextBytes (writtenRaw 3 s))
     | .dep, .ok t => cmpBytes { a with depLeaves := a.depLeaves + 1 } (specG1TextBytes t)
     | i, sp => a.bad path s!"PointG1 text: impl model {i.tag}, specification {sp.tag}"
   | .g2, .str s =>
     match implG2Text false s.toList, specG2Text false s.toList with
-    | .ok t, .ok _ => cmpBytes a (g2TextBytes t)
+    | .ok _, .ok _ => cmpBytes a (g2TextBytes (writtenRaw 6 s))
     | .dep, .ok t => cmpBytes { a with depLeaves := a.depLeaves + 1 } (specG2TextBytes t)
     | i, sp => a.bad path s!"PointG2 text: impl model {i.tag}, specification {sp.tag}"
   | .g2inf, .str s =>
     match implG2Text true s.toList, specG2Text true s.toList with
-    | .ok t, .ok _ => cmpBytes a (g2TextBytes t)
+    | .ok _, .ok _ => cmpBytes a (g2TextBytes (writtenRaw 6 s))
     | .dep, .ok t => cmpBytes { a with depLeaves := a.depLeaves + 1 } (specG2TextBytes t)
     | i, sp => a.bad path s!"PointG2Inf text: impl model {i.tag}, specification {sp.tag}"
   | .pair, .str s =>
@@ -285,7 +291,7 @@ def checkLeaf (a : Acc) (path : String) (k : Wire.Kind) (jt : Json) (jb : Option
     match jsonBytes j with
     | some _ => (match jb with | some b => if b == j then a else a.bad path "binary form differs" | none => a)
     | none => a.bad path "byte array expected"
-  | _, _ => a.bad path s!"leaf of kind {k.render} has the wrong JSON type"
+  | _, _ => a.bad path s!"leaf of kind {" ".intercalate k.render} has the wrong JSON type"
 
 partial def checkKind (a : Acc) (path : String) (k : Wire.Kind) (jt : Json) (jb : Option Json) : Acc :=
   match k with
